@@ -5,6 +5,7 @@ import (
 	"io"
 	"math/big"
 	"sync"
+	"sync/atomic"
 	"time"
 
 	"github.com/markkurossi/mpc/circuit"
@@ -28,10 +29,11 @@ var otKinds = []otMaker{
 }
 
 type sessionResult struct {
-	gRes, eRes []*big.Int
-	gErr, eErr error
-	g2e, e2g   []byte
-	stalled    bool
+	gRes, eRes                 []*big.Int
+	gErr, eErr                 error
+	g2e, e2g                   []byte
+	g2eDelivered, e2gDelivered []byte
+	stalled                    bool
 }
 
 // runSession runs the real Garbler and Evaluator over an in-memory transport.
@@ -45,6 +47,7 @@ func runSession(circ *circuit.Circuit, gIn, eIn *big.Int, grand io.Reader, otG, 
 	gConn := p2p.NewConn(ga)
 	eConn := p2p.NewConn(ea)
 	res := &sessionResult{}
+	var gDone, eDone atomic.Bool
 	var wg sync.WaitGroup
 	wg.Add(2)
 	go func() {
@@ -52,34 +55,61 @@ func runSession(circ *circuit.Circuit, gIn, eIn *big.Int, grand io.Reader, otG, 
 		defer func() {
 			if r := recover(); r != nil {
 				res.gErr = fmt.Errorf("panic: %v", r)
+				gDone.Store(true)
 			}
 		}()
 		res.gRes, res.gErr = circuit.Garbler(&env.Config{Rand: grand}, gConn, otG, circ, gIn, false)
+		gDone.Store(true)
 	}()
 	go func() {
 		defer wg.Done()
 		defer func() {
 			if r := recover(); r != nil {
 				res.eErr = fmt.Errorf("panic: %v", r)
+				eDone.Store(true)
 			}
 		}()
 		res.eRes, res.eErr = circuit.Evaluator(eConn, otE, circ, eIn, false)
+		eDone.Store(true)
 	}()
 	done := make(chan struct{})
 	go func() { wg.Wait(); close(done) }()
-	select {
-	case <-done:
-	case <-time.After(timeout):
-		res.stalled = true
-		ga.Close()
-		ea.Close()
-		<-done
+	// watchdog: abort on timeout, or when both parties are blocked reading
+	// from empty queues for 30 consecutive polls (protocol-level deadlock)
+	deadline := time.Now().Add(timeout)
+	idle := 0
+loop:
+	for {
+		select {
+		case <-done:
+			break loop
+		case <-time.After(2 * time.Millisecond):
+		}
+		if (gDone.Load() || e2g.idle()) && (eDone.Load() || g2e.idle()) {
+			idle++
+		} else {
+			idle = 0
+		}
+		if idle >= 30 || time.Now().After(deadline) {
+			res.stalled = true
+			ga.Close()
+			ea.Close()
+			<-done
+			break loop
+		}
 	}
+	// release the connections' writer goroutines and buffers
+	ga.Close()
+	ea.Close()
+	go gConn.Close()
+	go eConn.Close()
 	g2e.mu.Lock()
 	res.g2e = append([]byte(nil), g2e.log...)
+	res.g2eDelivered = append([]byte(nil), g2e.delivered...)
 	g2e.mu.Unlock()
 	e2g.mu.Lock()
 	res.e2g = append([]byte(nil), e2g.log...)
+	res.e2gDelivered = append([]byte(nil), e2g.delivered...)
 	e2g.mu.Unlock()
 	return res
 }
